@@ -30,14 +30,15 @@ RULES = {
 }
 PROBES = ["register_write", "register_read", "memory_write", "memory_read", "strobe_len_ge_7", "strobe_len_1",
           "controls_scrambled_after_strobe", "multiword_write", "multiword_read", "read_misaligned", "read_with_pauses",
-          "read_first_word_delayed", "phy_delay_ge_2", "back_to_back_gap_0", "wrapped_burst", "read_words_checked_aux",
+          "read_first_word_delayed", "phy_delay_ge_2", "back_to_back_gap_0", "start_in_first_idle_cycle", "start_one_cycle_after_first_idle", "wrapped_burst", "read_words_checked_aux",
           "write_words_checked_aux"]
 META = {
     "components_real": ["luna.gateware.interface.psram.HyperRAMInterface"],
     "components_stubbed": ["HyperRAM chip + 2:1 PHY behaviour at the HyperBusPHY record (models.periph_hyperram.HyperRAMEnv)",
                            "user logic driving the control port"],
     "assumptions": ["the chip uses fixed 2x latency with latency count 7 (RWDS high during CA), as the interface hard-codes",
-                    "requests are issued only while idle is high; control inputs are stable during the whole start strobe; "
+                    "requests are issued only while idle is high (from the very first idle cycle on: combinational gating with `idle` "
+                    "is legal user logic); control inputs are stable during the whole start strobe; "
                     "final_word accompanies the last word; write_data follows write_ready by one cycle",
                     "reads: up to 3 further clocks after the final word are tolerated (their data is ignored)",
                     "data values (read_data / written words) are compared only as auxiliary counters: the statement is about "
@@ -68,6 +69,12 @@ def gen(rng, tier, index):
             if rng.random() < 0.3 and n > 1:
                 rq["pauses"] = {str(rng.randint(1, n - 1)): rng.randint(1, 3)}
         reqs.append(rq)
+    for rq in reqs:
+        # when the user logic strobes relative to the first cycle the interface shows idle: in that very cycle (combinational
+        # gating start = pending & idle), one cycle later (registered, request ready), or the legacy 2 + gap cycles later
+        at = rng.choice([None, None, "comb", "next"])
+        if at:
+            rq["start_at"] = at
     return {"engine": ENGINE, "config": {}, "ops": reqs}
 
 
@@ -278,6 +285,13 @@ def run(scn):
         if rq["gap"] == 0 and k > 0:
             probes["back_to_back_gap_0"] += 1
             classes.add("b2b")
+        if k > 0 and k - 1 < len(env.req_done):
+            if env.req_start[k] == env.req_done[k - 1]:
+                probes["start_in_first_idle_cycle"] += 1
+                classes.add("comb_start")
+            elif env.req_start[k] == env.req_done[k - 1] + 1:
+                probes["start_one_cycle_after_first_idle"] += 1
+                classes.add("next_start")
         if rq["single_page"]:
             probes["wrapped_burst"] += 1
 
